@@ -6,6 +6,7 @@ import (
 
 	"lbcheck/eng"
 	"lbcheck/ir"
+	"lbcheck/rules"
 )
 
 func main() {
@@ -14,14 +15,13 @@ func main() {
 		fmt.Println(err)
 		os.Exit(1)
 	}
-	n := 0
-	for _, fn := range p.Funcs {
-		for _, f := range eng.LockPairing(fn) {
-			n++
-			if !f.OK {
-				fmt.Println("UNPAIRED", ir.FuncKey(fn), p.InstrPos(f.Instr), f.Mutex, f.Detail)
-			}
+	n, bad := 0, 0
+	for _, o := range rules.ErrorGatesProbe(p, os.Args[1:]...) {
+		n++
+		if o.Status != eng.Discharged {
+			bad++
+			fmt.Println(o.Status, o.Construct, o.Pos, "::", o.Detail)
 		}
 	}
-	fmt.Println("lock sites", n)
+	fmt.Println("obligations", n, "failing", bad)
 }
